@@ -62,6 +62,17 @@ type Cfg struct {
 	Nested    bool // arrays directly inside arrays
 	Random    bool // add numbers / strings drawn from bits (20 %)
 	OddKeys   bool // "", "0", "1", "$x" keys in documents
+	Extremes  bool // dates, timestamps and strings at the ends of their ranges
+}
+
+// ExtremePool: non-numeric scalars at the ends of their ranges (differences
+// that overflow, unsigned fields with the top bit set, long common prefixes).
+var ExtremePool = []interface{}{
+	primitive.DateTime(math.MaxInt64), primitive.DateTime(math.MinInt64), primitive.DateTime(int64(1) << 62), primitive.DateTime(-(int64(1) << 62)), primitive.DateTime(-1), primitive.DateTime(1),
+	primitive.Timestamp{T: math.MaxUint32, I: 0}, primitive.Timestamp{T: 0, I: math.MaxUint32}, primitive.Timestamp{T: 1 << 31, I: 1}, primitive.Timestamp{T: 1<<31 - 1, I: 1 << 31}, primitive.Timestamp{},
+	"\x00", "a\x00", "a\x00b", "\xff", "\u00e9", "aaaaaaaaaaaaaaaaaaaaaaaaaaaaaaaaaaaaaaaab", "aaaaaaaaaaaaaaaaaaaaaaaaaaaaaaaaaaaaaaaac",
+	primitive.ObjectID{}, primitive.ObjectID{0xff, 0xff, 0xff, 0xff, 0xff, 0xff, 0xff, 0xff, 0xff, 0xff, 0xff, 0xff}, primitive.ObjectID{0x80},
+	primitive.Binary{Subtype: 255, Data: []byte{0}}, primitive.Binary{Subtype: 0, Data: []byte{0x80}}, primitive.Binary{Subtype: 0, Data: []byte{0x7f, 0xff}},
 }
 
 // Wide is the widest configuration.
@@ -74,6 +85,10 @@ var Core = Cfg{NonFinite: true, Decimal: true, Random: true}
 func (c Cfg) Scalar() *rapid.Generator[interface{}] {
 	return rapid.Custom(func(t *rapid.T) interface{} {
 		k := rapid.IntRange(0, 19).Draw(t, "k")
+		if c.Extremes && rapid.IntRange(0, 999).Draw(t, "xk")%10 == 5 {
+			i := rapid.IntRange(0, 9999).Draw(t, "xi") % len(ExtremePool)
+			return ExtremePool[i]
+		}
 		switch {
 		case k <= 7:
 			return rapid.SampledFrom(IntPool).Draw(t, "num")
